@@ -215,6 +215,9 @@ class Body:
                 return ("arg", name or ("_%d" % l))
         ds = self.defs.get(l, [])
         whole = [d for d in ds if d[2]]
+        if self.locals[l].get("alias") and len(ds) == 1 and len(whole) == 1:
+            # parameter of an inlined helper: nothing but another name for the argument
+            return self._origin_def(l, whole[0], depth)
         if self.locals[l].get("user") or len(ds) != 1 or len(whole) != 1:
             # user variables and multiply-assigned temps are roots; but a user variable with a
             # single whole assignment is also traced through (let x = expr;)
